@@ -4,6 +4,7 @@
 pub mod aio;
 pub mod logcap;
 pub mod watchdog;
+pub mod world;
 
 use proptest::strategy::{Strategy, ValueTree};
 use proptest::test_runner::{Config, RngAlgorithm, TestCaseError, TestError, TestRng, TestRunner};
@@ -371,6 +372,7 @@ impl Ctx {
         if cases == 0 {
             return;
         }
+        let _ = take_extra();
         let config = Config {
             cases: cases as u32,
             failure_persistence: None,
